@@ -3,6 +3,9 @@ import AcraModel.Wire.PgLemmas
 import AcraModel.Wire.MysqlLemmas
 import AcraModel.Wire.ByteaLemmas
 import AcraModel.Wire.PgExtLemmas
+import AcraModel.Wire.PgDescribeLemmas
+import AcraModel.Wire.MysqlColDefLemmas
+import AcraModel.Wire.MysqlExecuteLemmas
 /-!
 # C12 — relayed messages stay byte-identical; rewritten ones stay well-formed
 
@@ -13,6 +16,9 @@ and are restated here under the property's names.
 * part 2 – PostgreSQL framing, DataRow parsing/rewriting, Query replacement (`decryptor/postgresql/packet_handler.go`)
 * part 3 – MySQL packet framing, text and binary rows (`decryptor/mysql/{packet.go,response_proxy.go}`)
 * part 4 – bytea text codecs (`utils/dbByteArrayEncoders.go`)
+* part 5 – MySQL column definitions (`decryptor/mysql/column_field.go`, `type_conversion.go`)
+* part 6 – MySQL COM_STMT_EXECUTE parameters (`decryptor/mysql/{packet.go,prepared_statements.go}`)
+* part 7 – PostgreSQL RowDescription / ParameterDescription (`decryptor/postgresql/pg_decryptor.go` over pgproto3)
 -/
 namespace AcraModel.Props.C12
 open AcraModel AcraModel.Wire.LenEnc Generated.LenEnc
@@ -373,6 +379,266 @@ theorem rewrite_wellformed_mysql_bin (types : List Nat) (f : Nat → Bytes → B
   cases this
   rfl
 
+/-! ## part 5 — MySQL column definitions -/
+
+open AcraModel.Wire.My in
+/-- Facts from the regenerated layout of `ParseResultField` / `Dump` the column-definition model relies on: the catalog
+is skipped first, then the five strings in protocol order; the fixed block is guarded by a length check of exactly
+its size (13 = marker + charset 2 + length 4 + type 1 + flags 2 + decimals 1 + filler 2, `fix:` 09) and read in that
+order; `Dump` writes the same parts in the same order with the catalog `def`, the marker 0x0C and the default-value
+length as a length-encoded integer (`fix:` 10); the extended-type-info and default-value lengths are bounds-checked. -/
+theorem fact_coldef_layout :
+    Generated.Wire.myColDefCatalogSkipped = true ∧
+    Generated.Wire.myColDefStrings = ["Schema", "Table", "OrgTable", "Name", "OrgName"] ∧
+    Generated.Wire.myColDefFixedParse = [("skip", 1), ("Charset", 2), ("ColumnLength", 4), ("Type", 1), ("Flag", 2), ("Decimal", 1), ("skip", 2)] ∧
+    Generated.Wire.myColDefFixedGuard = (Generated.Wire.myColDefFixedParse.map (·.2)).sum ∧ fixedBlockLen = 13 ∧
+    Generated.Wire.myColDefExtOffsetUsesN = true ∧ Generated.Wire.myColDefExtGuarded = true ∧
+    Generated.Wire.myColDefDefaultGuardUint64 = true ∧
+    Generated.Wire.myColDefCatalog = [100, 101, 102] ∧ Generated.Wire.myColDefMarker = 12 ∧
+    Generated.Wire.myColDefDump = [("catalog", 0), ("Schema", 0), ("Table", 0), ("OrgTable", 0), ("Name", 0), ("OrgName", 0),
+      ("extRaw", 0), ("extEmpty", 0), ("marker", 1), ("Charset", 2), ("ColumnLength", 4), ("Type", 1), ("Flag", 2), ("Decimal", 1),
+      ("filler", 2), ("DefaultValueLength", 0), ("DefaultValue", 0)] := by decide
+
+open AcraModel.Wire.My in
+/-- The type configurations Acra writes into a re-typed column definition and the types for which it clears BlobFlag
+(regenerated from `TypeConfigurations` / `specificTypes`). -/
+theorem fact_coldef_types :
+    Generated.Wire.myTypeConfigurations = [(3, 63, 9, 0), (8, 63, 20, 0), (252, 63, 65535, 0), (254, 8, 255, 0)] ∧
+    Generated.Wire.mySpecificTypes = [254, 3, 8] ∧ Generated.Wire.myBlobFlag = 16 := by decide
+
+open AcraModel.Wire.My in
+/-- **coldef_no_panic.** `ParseResultField` never panics, whatever the packet (truncated anywhere, any declared
+lengths, with or without the MariaDB extended-type-info capability): it returns a description or an error.
+(True since `fix:` 09; before it a truncated definition panicked.) -/
+theorem coldef_no_panic (p : Packet) (maria : Bool) : parseResultField p maria ≠ .panic :=
+  parseResultField_no_panic p maria
+
+open AcraModel.Wire.My in
+/-- **coldef_roundtrip.** On every well-formed column definition (`encodeColDef s`: catalog `def`, canonical length
+prefixes, NULL or present strings, with or without MariaDB extended type info – empty or not –, with or without a default
+value) `ParseResultField` extracts exactly the fields of the definition, and `Dump` gives back the packet byte for
+byte – both on the unchanged path (`Dump` of the description as parsed) and on the rebuild path (`changed = true`
+with no field modified): `Dump ∘ Parse = id`. -/
+theorem coldef_roundtrip (s : ColSpec) (h : Bytes) (hs : s.Ok) :
+    parseResultField ⟨h, encodeColDef s⟩ s.ext.isSome = .ok (s.toColDef h) ∧
+    (s.toColDef h).dump = h ++ encodeColDef s ∧
+    ({ s.toColDef h with changed := true } : ColDef).dump = h ++ encodeColDef s :=
+  ⟨parseResultField_encodeColDef s h hs, dump_unchanged s h, dump_changed s h⟩
+
+open AcraModel.Wire.My in
+/-- **Rewritten column definition stays well-formed (MySQL).** When `updateFieldEncodedType` re-types a well-formed
+column definition to a type `nt` with a type configuration, the packet Acra sends is the header as received followed by
+exactly the well-formed definition in which type, charset, column length and decimals are the configured ones and
+BlobFlag is cleared for the "specific" types – every string, the extended type info, the other flags and the default
+value byte-identical – and the payload has the SAME LENGTH as the one received, so the declared packet length
+(which `Dump` does not recompute) is still the actual one. A column without a typed setting is relayed unchanged. -/
+theorem rewrite_wellformed_mysql_coldef (s : ColSpec) (h : Bytes) (hs : s.Ok) (nt cs len dec : Nat)
+    (hcfg : Generated.Wire.myTypeConfigurations.find? (·.1 = nt) = some (nt, cs, len, dec)) :
+    (∃ f, parseResultField ⟨h, encodeColDef s⟩ s.ext.isSome = .ok f ∧
+      (retype f (some nt)).dump = h ++ encodeColDef (retypeSpec s nt cs len dec) ∧
+      (retype f (some nt)).originType = s.typ ∧
+      (retype f none).dump = h ++ encodeColDef s) ∧
+    (encodeColDef (retypeSpec s nt cs len dec)).length = (encodeColDef s).length :=
+  ⟨⟨_, parseResultField_encodeColDef s h hs, (retype_dump s h nt cs len dec hcfg).2.2,
+    (retype_dump s h nt cs len dec hcfg).2.1, dump_unchanged s h⟩,
+   encodeColDef_length_retypeSpec s nt cs len dec⟩
+
+open AcraModel.Wire.My in
+/-- A parameter definition re-typed by `ParamsTrackHandler` differs from the received one in the type byte only. -/
+theorem rewrite_wellformed_mysql_paramdef (s : ColSpec) (h : Bytes) (nt : Nat) :
+    (retypeParam (s.toColDef h) (some nt)).dump = h ++ encodeColDef { s with typ := nt } ∧
+    (encodeColDef { s with typ := nt }).length = (encodeColDef s).length :=
+  ⟨retypeParam_dump s h nt, by simp [encodeColDef, List.length_append]⟩
+
+open AcraModel.Wire.My in
+/-- **Counterexample (known finding `my-coldef-stale-header`).** The hypothesis "canonical length prefixes" of
+`rewrite_wellformed_mysql_coldef` cannot be dropped: a definition whose (empty) schema is sent with a 3-byte length prefix
+parses, and after re-typing `Dump` rebuilds it two bytes shorter behind the unchanged header, which still declares 28. -/
+theorem coldef_stale_header_counterexample :
+    ∃ f, parseResultField ⟨[28, 0, 0, 1], [3, 100, 101, 102, 0xfc, 0, 0, 1, 116, 1, 116, 1, 99, 1, 99, 0x0c, 63, 0, 9, 0, 0, 0, 0xfc, 0, 0, 0, 0, 0]⟩ false = .ok f ∧
+      payloadLength (retype f (some 3)).header = 28 ∧ (retype f (some 3)).dump.length = 4 + 26 := ⟨_, by rfl, by rfl, by rfl⟩
+
+/-! ## part 6 — MySQL COM_STMT_EXECUTE parameters -/
+
+open AcraModel.Wire.My in
+/-- Facts from the regenerated sources the COM_STMT_EXECUTE model relies on: the parameter block starts at offset 10,
+`GetBindParameters` has its two bounds checks (`fix:` 11), a changed value becomes a BLOB (252), the unsigned flag is
+recomputed for LONG and LONGLONG only, and the three tables of numeric types agree (the Go type a value is read into,
+the bit size it is parsed back with, and `NumericTypesStorageBytes`). -/
+theorem fact_execute_tables :
+    hdrLen = 10 ∧ Generated.Wire.myExecuteGuards = 2 ∧ changedType = 252 ∧ Generated.Wire.mySignFlagTypes = [3, 8] ∧
+    Generated.Wire.myUnsignedBinaryValue = 128 ∧ Generated.Wire.mySignedBinaryValue = 0 ∧
+    Generated.Wire.myBoundDecode = [(1, "int8"), (2, "int16"), (3, "int32"), (4, "float32"), (5, "float64"), (6, "null"),
+      (8, "int64"), (9, "int32"), (13, "int16")] ∧
+    Generated.Wire.myBoundEncode = [(1, "int", 8), (2, "int", 16), (3, "int", 32), (4, "float", 32), (5, "float", 64), (6, "null", 0),
+      (8, "int", 64), (9, "int", 32), (13, "int", 16)] ∧
+    (∀ t sb, storageBytes t = some sb →
+      (decodeKind t = some (.int sb) ∧ encodeKind t = some (.int sb)) ∨
+      (decodeKind t = some (.float sb) ∧ encodeKind t = some (.float sb)) ∨
+      (decodeKind t = some .null ∧ encodeKind t = some .null ∧ sb = 0)) :=
+  ⟨rfl, rfl, rfl, rfl, rfl, rfl, by decide, by decide, tables_agree⟩
+
+open AcraModel.Wire.My in
+/-- **Integer text round trip.** `strconv.ParseInt(strconv.FormatInt(i, 10), 10, bits) = i` for every `i` of the signed
+`bits`-bit range, and writing back the integer read from `w` little-endian bytes gives those bytes: an integer
+parameter Acra only looks at (as decimal text) comes back bit-identical. -/
+theorem execute_int_text_roundtrip :
+    (∀ (bits : Nat) (i : Int), -((2^(bits-1) : Nat) : Int) ≤ i → i < ((2^(bits-1) : Nat) : Int) → parseInt bits (fmtInt i) = some i) ∧
+    (∀ (w : Nat) (b : Bytes), b.length = w → intBytes w (toSigned (8*w) (leVal b)) = b) :=
+  ⟨parseInt_fmtInt, intBytes_toSigned⟩
+
+open AcraModel.Wire.My in
+/-- **One parameter through `NewMysqlBoundValue → SetData → Encode`.** (i) a fixed-width integer parameter (TINY, SHORT,
+YEAR, LONG, INT24, LONGLONG) that is not changed is consumed with its storage width and re-encoded to exactly its
+bytes; (ii) the same for FLOAT/DOUBLE whenever strconv's shortest-text round trip holds for the value (hypothesis
+`fo.parse w (fo.fmt w raw) = some raw`: all finite values and infinities; NaN payloads are canonicalised – excluded);
+(iii) a string-like parameter is consumed with exactly its length-encoded size, re-encoded identically when
+unchanged, and – the rule of the code – travels as a BLOB (type 252) holding the length-encoded new value when changed. -/
+theorem rewrite_wellformed_mysql_execute_value (fo : FloatOps) :
+    (∀ t w raw rest, storageBytes t = some w → decodeKind t = some (.int w) → encodeKind t = some (.int w) → 0 < w →
+      raw.length = w →
+      ∃ v, newBoundValue fo (raw ++ rest) t = .ok (v, w) ∧ v.paramType = t ∧ (v.setData (v.data.getD [])) = v ∧ v.encode fo = .ok raw) ∧
+    (∀ t w raw rest, storageBytes t = some w → decodeKind t = some (.float w) → encodeKind t = some (.float w) →
+      raw.length = w → fo.parse w (fo.fmt w raw) = some raw →
+      ∃ v, newBoundValue fo (raw ++ rest) t = .ok (v, w) ∧ v.paramType = t ∧ v.encode fo = .ok raw) ∧
+    (∀ t b b' rest, storageBytes t = none → b.length < 2^64 →
+      newBoundValue fo (putLengthEncodedString (some b) ++ rest) t = .ok (⟨t, some b⟩, (putLengthEncodedString (some b)).length) ∧
+      ((⟨t, some b⟩ : BoundValue).setData b).encode fo = .ok (putLengthEncodedString (some b)) ∧
+      (b' ≠ b → ((⟨t, some b⟩ : BoundValue).setData b').paramType = changedType ∧
+        ((⟨t, some b⟩ : BoundValue).setData b').encode fo = .ok (putLengthEncodedString (some b')))) := by
+  refine ⟨?_, ?_, ?_⟩
+  · intro t w raw rest hs hd he hw hr
+    obtain ⟨h1, h2⟩ := value_roundtrip_int fo t w raw rest hs hd he hw hr
+    exact ⟨_, h1, rfl, by simp [BoundValue.setData], h2⟩
+  · intro t w raw rest hs hd he hr hlaw
+    obtain ⟨h1, h2⟩ := value_roundtrip_float fo t w raw rest hs hd he hr hlaw
+    exact ⟨_, h1, rfl, h2⟩
+  · intro t b b' rest hs hb
+    obtain ⟨h1, _, h3, h4⟩ := value_roundtrip_str fo t b b' rest hs hb
+    exact ⟨h1, h3, h4⟩
+
+open AcraModel.Wire.My in
+/-- **Rewritten COM_STMT_EXECUTE stays well-formed – partial (frame).** When `SetParameters` succeeds the new payload
+begins with the first `10 + (n+7)/8 + 1` bytes of the received one (command, statement id, flags, iteration count, NULL
+bitmap – so the NULL markers – and the new-params-bound flag are byte-identical), followed by exactly two bytes per
+parameter (same parameter count) and the encodings of the non-NULL values; the header gets the new payload length
+and keeps the sequence id.
+
+Missing for the full statement (`rewriteExecute` of a specification-encoded packet = the specification encoding of
+the transformed parameter list): the induction that assembles `rewrite_wellformed_mysql_execute_value` over the
+value loop with the NULL bitmap; it is covered by correspondence (`C12.my.execute`, `C12.my.execute.params`) and the
+direct oracle. The full statement is moreover FALSE for the unsigned flag of LONG/LONGLONG parameters – see
+`execute_sign_flag_counterexample` (known finding `my-execute-sign-flag`). -/
+theorem rewrite_wellformed_mysql_execute_partial (fo : FloatOps) (p p' : Packet) (vs : List BoundValue) (hne : vs ≠ [])
+    (h : setParameters fo p vs = .ok p') :
+    ∃ types vals, p'.data = p.data.take (hdrLen + ((vs.length + 7) >>> 3) + 1) ++ types ++ vals ∧
+      hdrLen + ((vs.length + 7) >>> 3) + 1 ≤ p.data.length ∧ types.length = 2 * vs.length ∧
+      encodeVals fo vs = .ok vals ∧ p'.header = updatePacketSize p.header p'.data.length := by
+  obtain ⟨types, vals, h1, h2, h3, h4, h5⟩ := setParameters_frame fo p p' vs hne h
+  exact ⟨types, vals, h3, h4, setTypes_length _ _ _ _ h1, h2, h5⟩
+
+open AcraModel.Wire.My in
+/-- **Counterexample (known finding `my-execute-sign-flag`).** "Fields that were not transformed keep their exact
+bytes" fails for the unsigned flag: in an execute whose second (string) parameter is changed, the untouched first
+parameter – LONG, flagged unsigned (0x80), bytes ff ff ff ff = 4294967295 – is sent on with the flag 0x00 (signed):
+the database receives -1. First conjunct: the value is read as the text "-1"; second: `SetParameters` on the values
+after the observer changed parameter 1 (for every float codec: no float parameter is involved). -/
+theorem execute_sign_flag_counterexample (fo : FloatOps) :
+    newBoundValue fo [0xff, 0xff, 0xff, 0xff, 1, 65] 3 = .ok (⟨3, some [45, 49]⟩, 4) ∧
+    setParameters fo ⟨[23, 0, 0, 5], [0x17, 1, 0, 0, 0, 0, 1, 0, 0, 0, 0, 1, 3, 0x80, 0xfd, 0, 0xff, 0xff, 0xff, 0xff, 1, 65]⟩
+        [⟨3, some [45, 49]⟩, (⟨0xfd, some [65]⟩ : BoundValue).setData [90]]
+      = .ok ⟨[22, 0, 0, 5], [0x17, 1, 0, 0, 0, 0, 1, 0, 0, 0, 0, 1, 3, 0x00, 0xfc, 0, 0xff, 0xff, 0xff, 0xff, 1, 90]⟩ := by
+  constructor
+  · have h := (value_roundtrip_int fo 3 4 [0xff, 0xff, 0xff, 0xff] [1, 65] (by decide) (by decide) (by decide) (by decide) rfl).1
+    have ht : toSigned (8 * 4) (leVal [0xff, 0xff, 0xff, 0xff]) = -1 := by decide
+    have hf : fmtInt (-1) = [45, 49] := by
+      unfold fmtInt
+      rw [if_pos (by decide), natDec]
+      rfl
+    rw [ht, hf] at h
+    exact h
+  · rfl
+
+open AcraModel.Wire.My in
+/-- **COM_STMT_EXECUTE handling never panics**: `GetBindParameters` on any packet with any parameter count, and the whole
+`GetBindParameters → OnBind → SetParameters` rewrite with any (non-panicking) observer. (True since `fix:` 11.) -/
+theorem mysql_execute_no_panic (fo : FloatOps) (g : Nat → Bytes → Out Bytes) (hg : ∀ i d, g i d ≠ .panic) (p : Packet) (n : Nat) :
+    getBindParameters fo p.data n ≠ .panic ∧ rewriteExecute fo g p n ≠ .panic :=
+  ⟨getBindParameters_no_panic fo p.data n, rewriteExecute_no_panic fo g hg p n⟩
+
+/-! ## part 7 — PostgreSQL RowDescription / ParameterDescription -/
+
+open AcraModel.Wire.Pg in
+/-- Facts from the regenerated sources the description model relies on: the pgproto3 member layout of a field
+description (18 bytes after the zero-terminated name, the data type OID at member 2), the only members Acra assigns
+(`Fields[i].DataTypeOID`, `ParameterOIDs[i]`), and that it replaces the body behind the 5-byte prefix of the re-encoded
+message without recomputing the packet's length buffer. -/
+theorem fact_pg_describe :
+    fdLayout = [("TableOID", 4), ("TableAttributeNumber", 2), ("DataTypeOID", 4), ("DataTypeSize", 2), ("TypeModifier", 4), ("Format", 2)] ∧
+    layoutLen fdLayout = fdFixedLen ∧ fdFixedLen = 18 ∧ oidIndex = 2 ∧
+    Generated.Wire.pgRowDescAssigned = ["Fields[i].DataTypeOID"] ∧ Generated.Wire.pgParamDescAssigned = ["ParameterOIDs[i]"] ∧
+    Generated.Wire.pgHandleRowDescriptionSkip = 5 ∧ Generated.Wire.pgHandleParameterDescriptionSkip = 5 ∧
+    Generated.Wire.pgHandleRowDescriptionUpdatesLength = false ∧ Generated.Wire.pgHandleParameterDescriptionUpdatesLength = false ∧
+    Generated.Wire.pgMessageTypes.lookup "RowDescriptionType" = some 84 ∧
+    Generated.Wire.pgMessageTypes.lookup "ParameterDescriptionType" = some 116 := by decide
+
+open AcraModel.Wire.Pg in
+/-- **RowDescription / ParameterDescription round trip** of the pgproto3 codec Acra uses, on protocol-conformant
+messages (names without zero bytes, members within their widths, at most 65535 entries). -/
+theorem pg_describe_roundtrip :
+    (∀ (fs : List FieldDesc) (b : Bytes), (∀ f ∈ fs, FieldOk f) → encodeRowDesc fs = some b → decodeRowDesc b = some fs) ∧
+    (∀ (oids : List Nat) (b : Bytes), (∀ o ∈ oids, o < 2^32) → encodeParamDesc oids = some b → decodeParamDesc b = some oids) :=
+  ⟨decodeRowDesc_encodeRowDesc, decodeParamDesc_encodeParamDesc⟩
+
+open AcraModel.Wire.Pg in
+/-- **rowdescription_rewrite_frame.** On a protocol-conformant RowDescription whose query items match its columns,
+`handleRowDescription` keeps the type byte and the length buffer, and the new body is the encoding of the SAME field
+list in which only the data type OID of the selected columns is replaced: the field count and the body length are
+unchanged (so the untouched length buffer still declares the actual length), every column keeps its name and all
+other members, and a column that is not selected is identical. -/
+theorem rowdescription_rewrite_frame (t : UInt8) (lb b : Bytes) (fs : List FieldDesc) (its : List (Option Nat))
+    (h : ∀ f ∈ fs, FieldOk f) (he : encodeRowDesc fs = some b) (hl : its.length = fs.length) :
+    ∃ b', handleRowDescription ⟨t, lb, b⟩ (some its) = ⟨t, lb, b'⟩ ∧
+      encodeRowDesc (setOids fs its) = some b' ∧ b'.length = b.length ∧
+      (setOids fs its).length = fs.length ∧
+      (∀ (i : Nat) (f : FieldDesc), fs[i]? = some f → (setOids fs its)[i]? = some (match (its[i]?).join with
+          | some oid => { f with members := f.members.set oidIndex oid }
+          | none => f)) ∧
+      ((∀ o, some o ∈ its → o < 2^32) → decodeRowDesc b' = some (setOids fs its)) := by
+  obtain ⟨b', h1, h2, h3⟩ := handleRowDescription_encode t lb b fs its h he hl
+  exact ⟨b', h3, h1, h2, setOids_length fs its, fun i f hi => setOids_getElem fs its i f hi,
+    fun ho => decodeRowDesc_encodeRowDesc _ _ (setOids_fieldOk fs its h ho) h1⟩
+
+open AcraModel.Wire.Pg in
+/-- **ParameterDescription rewrite frame.** Same for `handleParameterDescription`: type byte and length buffer kept, the
+parameter count and the body length unchanged, parameter `i` gets the OID of its typed setting and every other
+parameter keeps its OID. -/
+theorem parameterdescription_rewrite_frame (t : UInt8) (lb b : Bytes) (oids : List Nat) (its : List (Option Nat))
+    (ho : ∀ o ∈ oids, o < 2^32) (he : encodeParamDesc oids = some b) :
+    ∃ b', handleParameterDescription ⟨t, lb, b⟩ (some its) = ⟨t, lb, b'⟩ ∧
+      encodeParamDesc (setParamOids oids its) = some b' ∧ b'.length = b.length ∧
+      (setParamOids oids its).length = oids.length ∧
+      (∀ (i : Nat) (o : Nat), oids[i]? = some o → (setParamOids oids its)[i]? = some (((its[i]?).join).getD o)) := by
+  obtain ⟨b', h1, h2, h3⟩ := handleParameterDescription_encode t lb b oids its ho he
+  refine ⟨b', h3, h1, h2, setParamOids_length oids its, ?_⟩
+  intro i o hi
+  simp [setParamOids, List.getElem?_mapIdx, hi]
+
+open AcraModel.Wire.Pg in
+/-- **Relay identity of descriptions.** Without registered settings, with a column count that does not match, with a
+body pgproto3 rejects, or when no column/parameter has a typed setting, the packet is left exactly as received. -/
+theorem describe_relay_identity (p : Packet) (its : List (Option Nat)) :
+    handleRowDescription p none = p ∧ handleParameterDescription p none = p ∧
+    (decodeRowDesc p.body = none → handleRowDescription p (some its) = p) ∧
+    (decodeParamDesc p.body = none → handleParameterDescription p (some its) = p) ∧
+    (∀ fs, decodeRowDesc p.body = some fs → its.length ≠ fs.length → handleRowDescription p (some its) = p) ∧
+    (∀ fs, decodeRowDesc p.body = some fs → its.any (·.isSome) = false → handleRowDescription p (some its) = p) := by
+  refine ⟨rfl, rfl, ?_, ?_, ?_, ?_⟩
+  · intro h; simp [handleRowDescription, h]
+  · intro h; simp [handleParameterDescription, h]
+  · intro fs h hn; simp [handleRowDescription, h, hn]
+  · intro fs h hn; simp [handleRowDescription, h, hn]
+
 /-! ## no panics (the modelled readers and rewriters, whatever the input; collected into C14 by the lead) -/
 
 open AcraModel.Wire.Pg in
@@ -454,5 +720,23 @@ example : decodeTextRow [none, some [], some [65]].length (encodeTextRow [none, 
     intro b hb
     simp only [List.mem_cons, Option.some.injEq, List.not_mem_nil, or_false, reduceCtorEq, false_or] at hb
     rcases hb with rfl | rfl <;> decide)
+
+
+open AcraModel.Wire.My in
+/-- non-vacuity of `coldef_roundtrip` / `rewrite_wellformed_mysql_coldef`: a BLOB column `c` of table `t` with MariaDB
+extended type info "json" and a default value, re-typed to LONG -/
+example : ∃ s : ColSpec, s.Ok ∧ s.ext = some [0, 4, 106, 115, 111, 110] ∧ s.default = some [1, 2, 3] ∧
+    Generated.Wire.myTypeConfigurations.find? (·.1 = 3) = some (3, 63, 9, 0) :=
+  ⟨⟨some [], some [116], some [116], some [99], none, some [0, 4, 106, 115, 111, 110], 63, 65535, 252, 144, 0, some [1, 2, 3]⟩,
+   ⟨by intro b hb; simp only [List.mem_cons, Option.some.injEq, List.not_mem_nil, or_false, reduceCtorEq] at hb
+       rcases hb with rfl | rfl | rfl | rfl | hb <;> first | decide | exact absurd hb (by simp),
+    by intro e he; cases he; decide, by decide, by decide, by decide, by decide, by decide,
+    by intro d hd; cases hd; decide⟩, rfl, rfl, by decide⟩
+
+open AcraModel.Wire.Pg in
+/-- non-vacuity of `rowdescription_rewrite_frame`: two columns, the second re-typed to int4 (OID 23) -/
+example : ∃ b', handleRowDescription ⟨84, [0, 0, 0, 50], (encodeRowDesc [⟨[105, 100], [1, 1, 23, 4, 0xffffffff, 0]⟩, ⟨[99], [1, 2, 17, 0xffff, 0xffffffff, 0]⟩]).getD []⟩ (some [none, some 23])
+      = ⟨84, [0, 0, 0, 50], b'⟩ ∧ decodeRowDesc b' = some [⟨[105, 100], [1, 1, 23, 4, 0xffffffff, 0]⟩, ⟨[99], [1, 2, 23, 0xffff, 0xffffffff, 0]⟩] :=
+  ⟨_, by rfl, by rfl⟩
 
 end AcraModel.Props.C12
